@@ -269,7 +269,7 @@ theorem forwardSend_all (env : Env) (b : Bundle) (r : List Peer × Bool × Desc 
 /-- After the transmissions the item is either kept (marked for retry) or a transmission succeeded. -/
 theorem forwardSend_kept (env : Env) (b : Bundle) (r : List Peer × Bool × Desc × Node) (it : Item)
     (hg : r.2.2.2.store.get r.2.2.1.key = some it)
-    (hfp : r.2.2.1.cons.fp = true) (hrp : r.2.2.1.cons.rp = false) (hle : r.2.2.1.cons.le = false) :
+    (hrp : r.2.2.1.cons.rp = false) (hle : r.2.2.1.cons.le = false) :
     OkSent (forwardSend env b r).2 b ∨
     Kept it ((forwardSend env b r).1.store.get r.2.2.1.key) := by
   unfold forwardSend
@@ -324,7 +324,7 @@ theorem forward_only (env : Env) (d : Desc) (b : Bundle) (n : Node) (hd : d.bndl
             cases hb'
             exact hk
 
-theorem forward_outs (env : Env) (d : Desc) (b : Bundle) (n : Node) (hd : d.bndl = some b) :
+theorem forward_outs (env : Env) (d : Desc) (b : Bundle) (n : Node) :
     OutsOf (forward env d b n).2 n.peers b.tag := by
   intro o ho
   unfold forward at ho
@@ -348,7 +348,7 @@ theorem Kept.of_eq {it it2 : Item} {o : Option Item} (h : Kept it2 o) (hb : it2.
   exact ⟨it', h1, h2, h3.trans hb, h4.trans he, h5⟩
 
 theorem forward_kept (env : Env) (d : Desc) (b : Bundle) (n : Node) (it : Item)
-    (hg : n.store.get d.key = some it) (hd : d.bndl = some b)
+    (hg : n.store.get d.key = some it)
     (hrp : d.cons.rp = false) (hle : d.cons.le = false) (hf : forwardable n.now b) :
     OkSent (forward env d b n).2 b ∨ Kept it ((forward env d b n).1.store.get d.key) := by
   unfold forward
@@ -365,7 +365,7 @@ theorem forward_kept (env : Env) (d : Desc) (b : Bundle) (n : Node) (it : Item)
   rcases hsel.item _ h1 with ⟨it2, g2, b2, e2, _, _, _⟩
   have := forwardSend_kept env b (selectSenders env { d with cons := { d.cons with fp := true, dp := false } } b
     (sync { d with cons := { d.cons with fp := true, dp := false } } n)) it2
-    (by rw [hdesc.1]; exact g2) (by rw [hdesc.2.1]) (by rw [hdesc.2.1]; exact hrp) (by rw [hdesc.2.1]; exact hle)
+    (by rw [hdesc.1]; exact g2) (by rw [hdesc.2.1]; exact hrp) (by rw [hdesc.2.1]; exact hle)
   rw [hdesc.1] at this
   rcases this with h | h
   · exact Or.inl h
@@ -399,7 +399,7 @@ theorem dispatching_kept (env : Env) (d : Desc) (n : Node) (it : Item) (hfix : n
     · -- first dispatch: the bundle is in memory
       have hbun : d.bundle (dispatchingAllowed env d n).2 = some b := by simp [Desc.bundle, hb]
       simp only [hbun, hcfg, hdst, Bool.false_eq_true, if_false]
-      have := forward_kept env { d with bndl := some b } b (dispatchingAllowed env d n).2 ita ga rfl hrp hle
+      have := forward_kept env { d with bndl := some b } b (dispatchingAllowed env d n).2 ita ga hrp hle
         (by rw [hnow]; exact hf)
       simp only [descTag, hb]
       rcases this with h | h
@@ -410,7 +410,7 @@ theorem dispatching_kept (env : Env) (d : Desc) (n : Node) (it : Item) (hfix : n
       · have hbun : d.bundle (dispatchingAllowed env d n).2 = some it.bundle := by
           simp [Desc.bundle, hb, ga, hnow, ba, hl]
         simp only [hbun, hcfg, (hload hl).2, Bool.false_eq_true, if_false]
-        have := forward_kept env { d with bndl := some it.bundle } it.bundle (dispatchingAllowed env d n).2 ita ga rfl
+        have := forward_kept env { d with bndl := some it.bundle } it.bundle (dispatchingAllowed env d n).2 ita ga
           hrp hle (by rw [hnow]; exact (hload hl).1)
         simp only [descTag, hb]
         rcases this with h | h
@@ -489,7 +489,7 @@ theorem dispatching_outs (env : Env) (d : Desc) (n : Node) (it : Item)
       simp only
       split
       · intro o ho; simp at ho
-      · have := forward_outs env { d with bndl := some b } b (dispatchingAllowed env d n).2 rfl
+      · have := forward_outs env { d with bndl := some b } b (dispatchingAllowed env d n).2
         rw [ha.only.env.peers] at this
         have htag : b.tag = (descTag d it).tag := by
           unfold Desc.bundle at hbun
